@@ -165,7 +165,8 @@ PROPS = {
     ),
     "C07": dict(
         props="Props/C07.v", tables=["core", "fide"],
-        src=["py__tag_element", "py__get_attributes", "py__get_ctc_info", "py__get_constraints_info"],
+        src=["py__tag_element", "py__get_attributes", "py__get_ctc_info", "py__get_constraints_info",
+             "py_FeatureIDEReader__parse_rule", "py_FeatureIDEReader__read_constraints"],
         suites=[suite_xml.run_fide],
         rule=("suites W-fide / R-fide: FeatureIDEWriter.transform() (returned bytes = file bytes; the file is parsed with "
               "ElementTree and compared as an element tree with the model's [fide_write], attribute order canonicalised), "
